@@ -129,6 +129,14 @@ def gen_program(rng, req):
             opts += [["after_chunk", i] for i in range(0, len(chunks) + 1)]
         spec["fail"] = rng.choice(opts)
         spec["fail_exc"] = rng.choice(["app", "app", "oserror", "filenotfound", "permission", "timeout", "valueerror"])
+    if not nobody and spec["status"].startswith("200") and rng.random() < 0.05:
+        # the failure is caught by the application stack, which offers an error page through start_response(..., exc_info) - after
+        # an empty first chunk (the head may have been flushed by it) or after real output
+        first = rng.choice([b"", b"", b"x"])
+        spec.update({"mode": "gen", "chunks": [first.hex(), b"hello".hex()], "cl": rng.choice(["exact", None]), "lazy_start": False,
+                     "fail": ["after_chunk", 1], "fail_exc": "app", "fail_exc_info": True, "exc_info_retry": False})
+        spec.pop("file", None)
+        spec.pop("cut_by", None)
     return spec
 
 
@@ -212,6 +220,18 @@ def judge(case, out, router):
         code = int(spec["status"].split()[0])
         method = methods[i]
         failed = rec is not None and rec.get("failed_at")
+        if rec is not None and rec.get("late_replaced"):
+            # the server accepted start_response(..., exc_info) after a failure: legal only while nothing of the first response
+            # has gone out - then the client must see exactly the replacement
+            from vlib.e2_worker import LATE_BODY
+            okr = rp.status == 500 and rp.complete and (res.problem is None or i < len(resps) - 1) and \
+                rp.body == (b"" if method == "HEAD" else LATE_BODY)
+            if not okr:
+                v.append(("exc-info-replacement-accepted-after-output", "the application failed after its first (empty) chunk and offered "
+                          "an error page through start_response(exc_info); the server accepted it, the client received status=%s "
+                          "complete=%s body=%r problem=%s" % (rp.status, rp.complete, rp.body[:40], res.problem)))
+                return v
+            continue
         if failed:
             sent_before_failure = failed.startswith("after_chunk") and (
                 any(len(c) for c in rec["produced"]) or True)
@@ -413,6 +433,16 @@ def live_shard(sh):
                 break
             case = make_case(rng)
             case["kind"] = "live-" + wc
+            if k in (5, 45, 85, 125):
+                # a response that takes longer than the keep-alive time to produce, with a pipelined request behind it
+                r0 = {"version": "1.1", "method": "GET", "conn": None, "expect": False, "body": ""}
+                r1 = {"version": "1.1", "method": "GET", "conn": rng.choice([None, ["close"]]), "expect": False, "body": ""}
+                p0 = {"status": "200 OK", "headers": [["X-App", "slow"]], "mode": "gen", "chunks": [b"first-part;".hex(), b"second-part".hex()],
+                      "cl": rng.choice([None, "exact"]), "lazy_start": False, "chunk_delay": settings["keepalive"] + 0.7,
+                      "exc_info_retry": False, "has_close": False}
+                p1 = {"status": "200 OK", "headers": [], "mode": "list", "chunks": [b"after".hex()], "cl": "exact", "has_close": False}
+                case["reqs"], case["progs"] = [r0, r1], [p0, p1]
+                run.count("live_slow_responses")
             for p in case["progs"]:
                 p.pop("fail", None)
                 p["has_close"] = False
@@ -513,7 +543,7 @@ def main(tier, seed):
     shards = [{"n": 1500 if q else 20000, "sub": s, "seed": seed, "tier": tier} for s in range(32 if q else 64)]
     shards += [{"kind": "live", "class": c, "n": 250 if q else 2000, "seed": seed, "tier": tier}
                for c in ("sync", "gthread", "gevent", "eventlet")]
-    run.require("live_connections", "live_class/sync", "live_class/gthread", "live_class/gevent", "live_class/eventlet")
+    run.require("live_connections", "live_class/sync", "live_class/gthread", "live_class/gevent", "live_class/eventlet", "live_slow_responses")
     run.assumptions = [
         "client = AF_UNIX socketpair end driven by the harness: sends all pipelined requests, half-closes, reads to EOF",
         "well-behaved applications only: no body for HEAD/204/304, no under-production against a declared length, str status 'NNN reason'",
